@@ -68,10 +68,42 @@ class Veto:
         return int.from_bytes(h[:8], "little") / 2**64 >= p
 
 
+class BareMove:
+    """Bare protocol move (inherits nothing): shifts one atom by a vector drawn from the context's generator."""
+
+    def __init__(self, step=0.2, result=True):
+        self.step, self.result = step, result
+        self.calls = 0
+        self.atoms_changed: list = []
+        self.cell_changed: list = []
+
+    def __call__(self, context):
+        self.calls += 1
+        atoms = context.atoms
+        if len(atoms):
+            i = int(context.rng.integers(len(atoms)))
+            atoms.positions[i] += context.rng.uniform(-self.step, self.step, 3)
+        return self.result
+
+    def on_atoms_changed(self, added_indices, removed_indices):
+        self.atoms_changed.append((list(map(int, added_indices)), list(map(int, removed_indices))))
+
+    def on_cell_changed(self, new_cell):
+        self.cell_changed.append(np.array(new_cell))
+
+    def to_dict(self):
+        return {"name": "BareMove", "kwargs": {"step": self.step, "result": self.result}}
+
+    @classmethod
+    def from_dict(cls, data):
+        return cls(**data.get("kwargs", {}))
+
+
 def register_scripted():
     from quansino.registry import register_class
 
     register_class(ScriptedCriteria, "ScriptedCriteria")
+    register_class(BareMove, "BareMove")
 
 
 # ----------------------------------------------------------------------------- atoms
@@ -251,6 +283,8 @@ def build_move(m: dict, labels, cache: dict):
         out = ExchangeMove(np.array(m.get("labels", labels)), build_op(m.get("op")), bias_towards_insert=m.get("bias", 0.5))
     elif t == "C":
         out = CellMove(build_op(m.get("op")), scale_atoms=m.get("scale", True))
+    elif t == "P":
+        out = BareMove(step=m.get("step", 0.2), result=m.get("result", True))
     elif t == "H":
         out = HamiltonianDisplacementMove(operation=Verlet(dt=m.get("dt", 1.0), max_steps=m.get("steps", 5)))
     else:
